@@ -375,6 +375,29 @@ def family_R(r):
     return out
 
 
+def family_P(r):
+    """Discriminants at the limits of NARROWER types than the repr (a size guessed or assumed too small): the u32/i32/u16/i16
+    limits under 64-bit, 128-bit and pointer-sized reprs, gapless and with holes."""
+    bits, signed = REPRS[r]
+    out = []
+    lims = []
+    for b in (16, 32):
+        if b < bits:
+            lims += [(1 << b) - 1, (1 << (b - 1)) - 1]
+            if signed:
+                lims += [-(1 << (b - 1))]
+    k = 0
+    for L in lims:
+        for vals in ([L], [L - 1, L], [L, L + 1], [L - 2, L - 1, L], [0, L] if L > 1 else [L, 0], [L - 1, L, L + 5]):
+            vals = sorted(set(v for v in vals if lo(r) <= v <= hi(r)))
+            if not vals:
+                continue
+            perm = scramble(len(vals))
+            out.append(make_decl(r, [vals[j] for j in perm], salt=30 + k, tag={"family": "P", "limit": L}))
+            k += 1
+    return out
+
+
 def boundary_values(decl):
     """B(E,R) of DESIGN.md §4 clipped to the repr: every constant generated comparisons can mention,
     both neighbours of every run boundary, and truncation / sign aliases of members."""
